@@ -28,3 +28,7 @@ def literal_bool_int_conflation(job, failure) -> bool:
 
 def union_bytype_int_for_float(job, failure) -> bool:
     return _explained(job, failure, "union_bytype_int")
+
+
+def unique_items_bool_int(job, failure) -> bool:
+    return _explained(job, failure, "unique_bool_int")
